@@ -46,6 +46,10 @@ static void run_rand(uint64_t idx, pv_rng* rng) {
     if (rep) { PV_COUNT("rand.creates_with_repeated_random_output", 1); if (pv_randn(rng, 2)) script[18] ^= (uint8_t)(0x40 << pv_randn(rng, 2)); }     /* same 150 bits, possibly other discarded bits */
     pv_set_rand_script(script, 19);
     uint64_t t = PV_EPOCH + pv_rand64(rng) % (1024 * PV_STEP);
+    /* "its birthday comes from the injected clock" for every value the clock can deliver: one case in eight uses a value outside the
+     * comfortable range (beyond 2^32 seconds after the epoch, before the epoch, the error value, far future) */
+    if (idx % 8 == 3) { static const uint64_t ODD[] = { 0, PV_EPOCH - 1, PV_EPOCH, PV_EPOCH + (1ull << 32) - 1, PV_EPOCH + (1ull << 32), PV_EPOCH + (1ull << 32) + 3 * PV_STEP, PV_EPOCH + (1ull << 33) + 7, 1ull << 32, 1ull << 40, 1ull << 63, UINT64_MAX - 1, UINT64_MAX, PV_EPOCH + 1023 * PV_STEP, PV_EPOCH + 1024 * PV_STEP, PV_EPOCH + 5000 * PV_STEP + 9 };
+        t = pv_randn(rng, 3) ? ODD[pv_randn(rng, sizeof ODD / sizeof *ODD)] : (pv_rand64(rng) >> pv_randn(rng, 30)); PV_COUNT("rand.creates_with_out_of_range_clock", 1); }
     pv_w->time_value = t;
     unsigned feat = pv_randn(rng, 8);
     wraps_begin();
